@@ -202,12 +202,32 @@ package trend
 //@ ensures[C04] forall kk :: 0 <= kk && kk < len(result) ==> hor(result, kk) <= max(hor(closing, kk + (v.IdlePeriod())), hor(volume, kk + (v.IdlePeriod())))
 
 // Aroon has no IdlePeriod method; the moving max/min over Period values implies Period-1
+// documented: Aroon Up = ((P - periods since the P-period high) / P) * 100, Aroon Down likewise with the low.
+// implemented: the run length of equal moving-maximum values stands in for the age of the maximum (see known findings).
+//@ stream aroonUpS(h stream, P int)[k] = round(real(P - agemaxS(h, k, k + P)) / P * 100)
+//@ stream aroonDownS(l stream, P int)[k] = round(real(P - ageminS(l, k, k + P)) / P * 100)
+//@ stream wmaxSt(c stream, P int)[k] = wmaxS(c, k, k + P)
+//@ stream wminSt(c stream, P int)[k] = wminS(c, k, k + P)
+//@ lemma aroon_upper(P int, s int)
+//@ requires[C15] P >= 1 && s >= 0
+//@ ensures[C15] round(real(P - s) / P * 100) <= 100
 //@ func Aroon.Compute
 //@ requires a.Period >= 1 && consumed(high) == 0 && consumed(low) == 0 && len(high) == len(low)
 //@ ensures[C02] len(result0) == max(0, len(high) - (a.Period - 1)) && len(result1) == max(0, len(high) - (a.Period - 1))
 //@ ensures[C03] consumed(high) == len(high) && consumed(low) == len(low) && closed(result0) && closed(result1)
 //@ ensures[C04] forall kk :: 0 <= kk && kk < len(result0) ==> hor(result0, kk) <= max(hor(high, kk + (a.Period - 1)), hor(low, kk + (a.Period - 1)))
 //@ ensures[C04] forall kk :: 0 <= kk && kk < len(result1) ==> hor(result1, kk) <= max(hor(high, kk + (a.Period - 1)), hor(low, kk + (a.Period - 1)))
+//@ ensures[C01] "documented-up" forall k :: 0 <= k && k < len(result0) ==> result0[k] == aroonUpS(high, a.Period)[k]
+//@ ensures[C01] "documented-down" forall k :: 0 <= k && k < len(result1) ==> result1[k] == aroonDownS(low, a.Period)[k]
+//@ ensures[C15] "up-at-least-0" forall k :: 0 <= k && k < len(result0) ==> 0 <= result0[k]
+//@ ensures[C15] "down-at-least-0" forall k :: 0 <= k && k < len(result1) ==> 0 <= result1[k]
+//@ use since_cong(res(MovingMax_Compute, 0), wmaxSt(high, a.Period), _)
+//@ use since_cong(res(MovingMin_Compute, 0), wminSt(low, a.Period), _)
+//@ step[C01,C15] "as-implemented" forall k :: 0 <= k && k < len(result0) ==> result0[k] == round(real(a.Period - since(wmaxSt(high, a.Period), k)) / a.Period * 100) && result1[k] == round(real(a.Period - since(wminSt(low, a.Period), k)) / a.Period * 100)
+//@ use since_nonneg(wmaxSt(high, a.Period), _)
+//@ use since_nonneg(wminSt(low, a.Period), _)
+//@ use aroon_upper(a.Period, _)
+//@ ensures[C15] "at-most-100" forall k :: 0 <= k && k < len(result0) ==> result0[k] <= 100 && result1[k] <= 100
 
 //@ func Bop.Compute
 //@ requires consumed(opening) == 0 && consumed(high) == 0 && consumed(low) == 0 && consumed(closing) == 0 && len(opening) == len(high) && len(opening) == len(low) && len(opening) == len(closing)
